@@ -219,6 +219,76 @@ def streaming(case):
           'outcome': [name, impl, k]}
 
 
+def random_states(case):
+  """client_samplers.get_pseudo_random_state(seed, round): the generators for several (seed, round) pairs are requested
+  first and used afterwards, in every order of use - each must give the draws of a generator requested and used alone."""
+  from fedjax.core import client_samplers as cs
+  pairs = [tuple(p) for p in case['pairs']]
+  alone = {p: cs.get_pseudo_random_state(*p).randint(0, 2 ** 31 - 1, size=4).tolist() for p in pairs}
+  require(len({tuple(v) for v in alone.values()}) == len(pairs), 'different (seed, round) pairs give the same generator', case=case)
+  evals = 0
+  for order in itertools.permutations(range(len(pairs))):
+    gens = [cs.get_pseudo_random_state(*p) for p in pairs]        # all requested before any is used
+    for i in order:
+      got = gens[i].randint(0, 2 ** 31 - 1, size=4).tolist()
+      require(got == alone[pairs[i]], 'the generator for (seed, round) %r, requested together with those of %r and used in order '
+              '%r, does not give its own draws' % (pairs[i], [p for p in pairs if p != pairs[i]], list(order)), alone[pairs[i]], got,
+              case=dict(case, order=list(order)))
+    evals += 1
+  return {'evals': evals, 'states': evals, 'transitions': evals * len(pairs), 'traces': evals, 'nontrivial': True,
+          'outcome': [list(p) for p in pairs]}
+
+
+def threads(case):
+  """Two samplers (a training and an evaluation sampler: other dataset, other seed) used from two threads; every schedule
+  of the source lines of client_samplers.py with at most `bound` preemptions; each cohort must be the one of its own
+  (seed, round)."""
+  import fedjax
+  from mc import sched
+  tmp = tempfile.mkdtemp(prefix='c13t_')
+  try:
+    fd1, _ = build_fd('zeros5', 'mem', tmp)
+    fd2, _ = build_fd('plain3', 'mem', tmp)
+    want1 = [[o[0] for o in observe(fedjax.client_samplers.UniformGetClientSampler(fd1, 2, 3, start_round_num=r).sample())] for r in range(2)]
+    want2 = [[o[0] for o in observe(fedjax.client_samplers.UniformGetClientSampler(fd2, 2, 11, start_round_num=r).sample())] for r in range(2)]
+    outcomes = set()
+
+    def make_bodies():
+      s1 = fedjax.client_samplers.UniformGetClientSampler(fd1, 2, 3)
+      s2 = fedjax.client_samplers.UniformGetClientSampler(fd2, 2, 11)
+
+      def body(s):
+        def run(point):
+          out = []
+          for _ in range(case['samples']):
+            point()
+            out.append([bytes(c) for c, _, _ in s.sample()])
+          return out
+        return run
+      return [body(s1), body(s2)]
+
+    def check(ex):
+      got1, got2 = ex.results.get(0), ex.results.get(1)
+      nc = dict(case, schedule=ex.choices)
+      require(got1 == want1[:case['samples']], 'sampler 1 returned cohorts that are not those of its (seed, round) while another '
+              'sampler ran in a second thread (schedule %r)' % (ex.choices,), want1, got1, case=nc)
+      require(got2 == want2[:case['samples']], 'sampler 2 returned cohorts that are not those of its (seed, round) while another '
+              'sampler ran in a second thread (schedule %r)' % (ex.choices,), want2, got2, case=nc)
+      outcomes.add(core.digest([got1, got2]))
+    files = ('fedjax/core/client_samplers.py',)
+    if 'schedule' in case:
+      check(sched.Scheduler(make_bodies(), files, case['schedule']).run())
+      return {'evals': 1}
+    st = sched.explore(make_bodies, check, bound=case['bound'], trace_files=files, time_budget_s=case.get('time_budget_s', 120))
+  finally:
+    shutil.rmtree(tmp, ignore_errors=True)
+  info = {'evals': st['executions'], 'states': st['executions'], 'transitions': st['executions'] * max(1, st['max_points']),
+          'traces': st['executions'], 'outcomes': sorted(outcomes), 'nontrivial': True, 'stats': {'schedules': st['executions']}}
+  if st['capped']:
+    info['cap'] = 'time budget reached at preemption bound %d after %d schedules' % (case['bound'], st['executions'])
+  return info
+
+
 def sample_table(arg):
   """Fresh-sampler answers for rounds 0..MAX_ROUND and the first streaming rounds (parent and child interpreters)."""
   import fedjax
@@ -226,8 +296,12 @@ def sample_table(arg):
   out = {}
   try:
     for impl in arg['impls']:
-      fd, _ = build_fd(arg['dataset'], impl, tmp)
+      fd, _ = build_fd(arg['dataset'], impl.split('+')[0], tmp)
+      if impl.endswith('+slice'):
+        fd = fd.slice(start=DATASETS[arg['dataset']][1])   # a derived view as the population
       for k in arg['ks']:
+        if k > fd.num_clients():
+          continue
         T = []
         for r in range(0, MAX_ROUND + 1):
           s = fedjax.client_samplers.UniformGetClientSampler(fd, k, arg['seed'], start_round_num=r)
@@ -235,7 +309,7 @@ def sample_table(arg):
         st = fedjax.client_samplers.UniformShuffledClientSampler(fd.shuffled_clients(2, arg['seed']), k)
         S = [[[o[0].hex(), o[1], o[2]] for o in observe(st.sample())] for _ in range(4)]
         out['%s/%d' % (impl, k)] = {'get': T, 'stream': S}
-      if impl == 'sql':
+      if impl.startswith('sql'):
         fd._connection.close()
   finally:
     shutil.rmtree(tmp, ignore_errors=True)
@@ -261,8 +335,9 @@ def other_process(case):
           'outcome': [case['dataset'], case['seed']]}
 
 
-SUBS = {'histories': histories, 'streaming': streaming, 'other_process': other_process}
-TIMEOUTS = {'histories': 900, 'streaming': 300, 'other_process': 1200}
+SUBS = {'histories': histories, 'streaming': streaming, 'other_process': other_process, 'random_states': random_states,
+        'threads': threads}
+TIMEOUTS = {'histories': 900, 'streaming': 300, 'other_process': 1200, 'random_states': 300, 'threads': 900}
 
 
 # sub-spaces re-executed under other interpreter configurations (mc.core.CONFIGS): {configuration: {sub-space: stride}}
@@ -295,6 +370,8 @@ def plan(ctx):
         for name, ids in DATASETS.items() for impl in ('mem', 'sql')
         for k in (range(1, len(ids) + 1) if len(ids) < 10 else (7, len(ids)))]
   ctx.pmap('streaming', sc, chunk=2)
-  ctx.pmap('other_process', [{'dataset': name, 'impls': ['mem', 'sql'], 'ks': [1, len(ids) - 1, len(ids)], 'seed': sd + ctx.seed,
+  ctx.run('random_states', [{'pairs': [[0, 0], [0, 1], [7, 1]]}, {'pairs': [[3, 2], [3, 5], [4, 2], [3, 0]]}])
+  ctx.pmap('threads', [{'samples': 1, 'bound': 2 if th else 1}, {'samples': 2, 'bound': 1}], chunk=1)
+  ctx.pmap('other_process', [{'dataset': name, 'impls': ['mem', 'sql', 'mem+slice', 'sql+slice'], 'ks': [1, len(ids) - 1, len(ids)], 'seed': sd + ctx.seed,
                               'hashseeds': [hs]} for name, ids in DATASETS.items() if len(ids) < 10 for sd in (0, 7)
                              for hs in ((1, 2, 3, 12345) if th else (1, 2))], chunk=1)
